@@ -71,6 +71,7 @@ type Exec struct {
 	opaquePtr map[*Cell]*Term
 	guardOrd map[ssa.Instruction]string
 	lemmas []*LemmaInst
+	defs map[string]*FunDecl
 	pendingForks []*State
 	elideCache map[*ssa.BasicBlock]*ssa.BasicBlock
 	assertedSites map[string]bool
@@ -792,6 +793,7 @@ func (x *Exec) run() {
 			}
 			x.lemmas = append(x.lemmas, li)
 		}
+		x.defs = x.instantiateDefs(st, x.fc, func() *EvalCtx { return x.ctxFor(x.entry, x.entry, nil) })
 		ctx := x.ctxFor(st, x.entry, nil)
 		for _, c := range x.fc.Requires {
 			t := x.evalBool(ctx, c)
